@@ -175,6 +175,19 @@ class Realiser:
         self.fn_cache[fi] = f
         return f
 
+    def custom(self, ci):
+        """A user-defined operator (one input, one output of the same type), as tests/test_custom_operator.py
+        defines one."""
+        key = ("custom", ci)
+        if key in self.fn_cache:
+            return self.fn_cache[key]
+        from harness.lib_c02c14_custom import make_custom
+
+        cs = self.spec["customs"][ci]
+        call = make_custom(cs["ident"], cs["domain"])
+        self.fn_cache[key] = call
+        return call
+
     def model(self, mi):
         if mi not in self.model_cache:
             self.model_cache[mi] = make_model(self.spec["models"][mi])
@@ -234,6 +247,8 @@ class Realiser:
                 res = spox.inline(m)(*[env[r][0] for r in refs])
                 for r in res.values():
                     env.append((r, "f"))
+            elif k == "custom":
+                env.append((self.custom(st[1])(env[st[2][0]][0]), "f"))
             elif k == "call":
                 fi, refs = st[1], st[2]
                 args = [env[r][0] for r in refs]
@@ -357,6 +372,8 @@ class NpEval:
                 env.append(_np_op(st[1], [env[r] for r in st[3]]))
             elif k in ("const", "init"):
                 env.append(np.array(st[1], F32))
+            elif k == "custom":
+                env.append(env[st[2][0]])
             elif k == "if":
                 _, c, tb, eb = st[:4]
                 outs = self.body(tb if bool(env[c]) else eb, env, [])
@@ -395,7 +412,7 @@ def np_eval(spec, feeds, by_model_inputs=False):
 
 def _nres(spec, st):
     k = st[0]
-    if k in ("op", "const", "init"):
+    if k in ("op", "const", "init", "custom"):
         return 1
     if k == "if":
         return len(st[2]["outs"])
@@ -426,6 +443,8 @@ def live_calls(spec):
             k = st[0]
             if k == "op":
                 needed.update(st[3])
+            elif k == "custom":
+                needed.update(st[2])
             elif k == "if":
                 needed.add(st[1])
                 for body in (st[2], st[3]):
@@ -673,8 +692,11 @@ def reference_loads(m):
         return False, str(e)[:200]
 
 
-def judge_model(m, want_ort=True):
-    """All model-free validity judges of C02 on a returned ModelProto. -> list of (kind, detail)."""
+def judge_model(m, want_ort=True, custom_keys=()):
+    """All model-free validity judges of C02 on a returned ModelProto. -> list of (kind, detail).
+    `custom_keys`: (domain, op_type) of user-defined operators of the program - they need no
+    FunctionProto, and no runtime has kernels for them (loading is then not attempted)."""
+    custom_keys = set(custom_keys)
     import onnx
     import onnx.shape_inference
 
@@ -690,7 +712,10 @@ def judge_model(m, want_ort=True):
     for p in walk_model(m):
         bad.append(("walker", p))
     defined = {(f.domain, f.name) for f in m.functions}
-    missing = sorted(set(used_function_keys(m)) - defined)
+    used = set(used_function_keys(m))
+    if used & custom_keys:
+        want_ort = False
+    missing = sorted(used - defined - custom_keys)
     if missing:
         bad.append(("missing-function", ",".join(f"{d}:{n}" for d, n in missing)))
     if want_ort:
@@ -761,11 +786,12 @@ class Gen:
         self.rng = rng
         self.feat = {"if": True, "loop": True, "inline": True, "func": True, "mixed": True,
                      "init": True, "unused": True, "func_in_body": True, "nested_func": True,
-                     "vary": False, "rmax": True, "collide": False}
+                     "vary": False, "rmax": True, "collide": False, "custom": False}
         if feat:
             self.feat.update(feat)
         self.funcs: list[dict] = []
         self.models: list[dict] = []
+        self.customs: list[dict] = []
 
     # -- helpers
     def ver(self):
@@ -789,7 +815,14 @@ class Gen:
                 stmts.append(["const", [rng.choice([-1.0, 0.5, 2.0]), rng.choice([1.0, -3.0])]])
                 types.append("f")
                 continue
-            if r < 0.40:
+            if self.feat["custom"] and r < 0.025 and depth < 3:
+                if not self.customs or rng.random() < 0.5:
+                    self.customs.append({"ident": rng.choice(["MyOp", "Inline_0__n0", "Inline_0__nw", "Abs",
+                                                              "Loop_0_body__Inline_0__n0", "Introduce_0_id"]),
+                                         "domain": rng.choice(["custom.dom", "dom.a"])})
+                stmts.append(["custom", rng.randrange(len(self.customs)), [self.pick(types, "f")]])
+                types.append("f")
+            elif r < 0.40:
                 if rng.random() < 0.5:
                     names = UNARY if self.feat["rmax"] else [u for u in UNARY if u != "rmax"]
                     name = rng.choice(names)
@@ -968,6 +1001,7 @@ class Gen:
             "drop": rng.random() < 0.5,
             "funcs": self.funcs,
             "models": self.models,
+            "customs": self.customs,
         }
         if not self.feat["unused"]:
             spec["drop"] = False
@@ -994,6 +1028,8 @@ def spec_stats(spec):
                 st["inline"] += 1
             elif s[0] == "call":
                 st["call"] += 1
+            elif s[0] == "custom":
+                st["custom"] = st.get("custom", 0) + 1
 
     walk(spec["stmts"], 0)
     for f in spec["funcs"]:
